@@ -115,9 +115,17 @@ def form_name(original_form: ufl.form.Form, form_id: int, prefix: str) -> str:
 
 
 def expression_name(
-    expression: tuple[ufl.core.expr.Expr, npt.NDArray[np.floating]], prefix: str
+    expression: tuple[ufl.core.expr.Expr, npt.NDArray[np.floating]],
+    prefix: str,
+    expression_id: int | None = None,
 ) -> str:
-    """Get expression name."""
+    """Get expression name.
+
+    Two expressions of one module can have the same signature (e.g. the
+    gradients of two coefficients of the same space at the same points), so
+    the position of the expression in the module is part of its name.
+    """
     assert isinstance(expression[0], ufl.core.expr.Expr)
-    sig = compute_signature([expression], prefix)
+    tag = prefix if expression_id is None else str((prefix, expression_id))
+    sig = compute_signature([expression], tag)
     return f"expression_{sig}"
